@@ -8,9 +8,11 @@ PROP = {
     'blocks': ['train'],
     'pre': [regen_train_kernels, regen_kernels],
     'trusted_extra': [TRAIN_KERNEL_TRUSTED, KERNEL_TRUSTED],
-    'proof_modules': ['C11', 'TrainKernels', 'Kernels'],
-    'namespaces': ['Altrios.Proofs.C11', 'Altrios.Proofs.TrainKernels', 'Altrios.Proofs.Kernels'],
+    'proof_modules': ['C11', 'C11Hyb', 'TrainKernels', 'Kernels'],
+    'namespaces': ['Altrios.Proofs.C11', 'Altrios.Proofs.C11Hyb', 'Altrios.Proofs.TrainKernels', 'Altrios.Proofs.Kernels'],
     'required_theorems': [
+        'Altrios.Proofs.C11Hyb.C11_rollup_is_sum', 'Altrios.Proofs.C11Hyb.C11_rollup_append', 'Altrios.Proofs.C11Hyb.C11_rollup_hybrid_counted',
+        'Altrios.Proofs.C11Hyb.C11_rollup_order_independent',
         'Altrios.Proofs.C11.C11_inner_call',
         'Altrios.Proofs.C11.C11_ss_power',
         'Altrios.Proofs.C11.C11_sl_power',
@@ -40,5 +42,8 @@ TEXT = {
              'positive / negative parts advance identically at train and consist level and as the sum over units (C11_*_energy); by induction from zero counters the totals are '
              'equal at every saved step and consist fuel / battery energy equal the sums over units (C11_ss_closed, C11_sl_closed); trip outputs are the totals times the '
              'annualization factor, which is 1 when not annualizing (C11_trip_outputs, C11_scaling_factor). The whole train step (train state + consist + every locomotive) is '
-             'reproduced bit for bit by the composed model. '),
+             'reproduced bit for bit by the composed model. '
+             'Consist-level fuel / battery getters over all THREE locomotive types (hybrids included; Altrios.Hyb.consistFuel / consistChem, Proofs/C11Hyb.lean): they are the sums over every unit with an '
+             'engine / a battery, additive under coupling, a hybrid anywhere contributes both, any reordering of the units leaves them unchanged (C11_rollup_*); op consist3_totals bit-exact on '
+             'consists coupled from individually stepped conventional, battery and hybrid units. '),
 }
